@@ -12,7 +12,7 @@ import time
 
 VERIF = os.path.dirname(os.path.dirname(os.path.abspath(__file__)))
 REPO = os.environ.get("VERIF_REPO", "/repo")
-NCPU = os.cpu_count() or 4
+NCPU = int(os.environ.get("VERIF_NCPU", "0") or 0) or os.cpu_count() or 4  # VERIF_NCPU caps the process pool (development aid)
 
 BASE_DEFS = ("-DHAVE_ACCEPT4 -DHAVE_EXPLICIT_BZERO -DHAVE_MEMMEM -DHAVE_MEMRCHR -DHAVE_PIPE2 "
              "-DHAVE_POSIX_SPAWN_FILE_ACTIONS_ADDCLOSEFROM_NP -DHAVE_PTHREAD_SETNAME_NP "
@@ -26,8 +26,9 @@ def sh(cmd, **kw):
 
 
 class Variant:
-    def __init__(self, name, cc="gcc", cflags=(), san=False, seed_off=0, extra_src=()):
+    def __init__(self, name, cc="gcc", cflags=(), san=False, seed_off=0, extra_src=(), scale=1.0):
         self.name = name
+        self.scale = scale  # share of the tier's case budget this variant runs (slow builds get less)
         self.cc = cc
         self.cflags = list(cflags)
         self.san = san
@@ -210,7 +211,7 @@ def run_rc_unit(res, rundir, unit, variants, tier, seed, known_preds, scale, tim
 
     def do_run(v):
         cmd = [exes[v.name], "--out", outdir, "--variant", v.name, "--seed", str(seed * 1000003 + v.seed_off + 1),
-               "--scale", str(scale * unit.get("scale", {}).get(tier, 1.0))] + (["--known", kn] if kn else [])
+               "--scale", str(scale * getattr(v, "scale", 1.0) * unit.get("scale", {}).get(tier, 1.0))] + (["--known", kn] if kn else [])
         t0 = time.time()
         try:
             r = subprocess.run(cmd, stdout=subprocess.PIPE, stderr=subprocess.STDOUT, text=True, env=env, timeout=timeout)
